@@ -33,29 +33,50 @@ STYLE = [0]     # 1: containers are a user-defined subclass of spa.Network and s
 _SUB = []
 
 
-def build(t, out, seed_shift=0):
-    import nengo
+DEFER = [0]     # 1: every container is created before any of its siblings is populated and entered again later
+#                      (`net = spa.Network(); ...; with net: ...`): the same model written in another order
+
+
+def make_container(t, seed_shift):
     import nengo_spa as spa
     if not _SUB:
         _SUB.append(type("UserNetwork", (spa.Network,), {}))
+    kw = {}
+    if t[1]:
+        # an explicitly supplied map for the subtree: one that already holds a vocabulary, or a still empty one
+        from nengo_spa.vocabulary import VocabularyMap
+        kw["vocabs"] = [spa.Vocabulary(16)] if STYLE[0] == 0 else VocabularyMap()
+    if t[2] is not None:
+        kw["seed"] = t[2] + seed_shift if STYLE[0] == 0 else np.int64(t[2] + seed_shift)
+    return (spa.Network if STYLE[0] == 0 else _SUB[0])(**kw)
+
+
+def build_children(children, out, seed_shift):
+    if not DEFER[0]:
+        for x in children:
+            build(x, out, seed_shift)
+        return
+    pre = [make_container(x, seed_shift) if x[0] == "S" else None for x in children]
+    for x, net in zip(children, pre):
+        if net is None:
+            build(x, out, seed_shift)
+        else:
+            with net:
+                build_children(x[3], out, seed_shift)
+
+
+def build(t, out, seed_shift=0):
+    import nengo
+    import nengo_spa as spa
     if t[0] == "M":
         st = spa.State(t[1])
         out.append(st.vocab)
     elif t[0] == "P":
         with nengo.Network():
-            for x in t[1]:
-                build(x, out, seed_shift)
+            build_children(t[1], out, seed_shift)
     else:
-        kw = {}
-        if t[1]:
-            # an explicitly supplied map for the subtree: one that already holds a vocabulary, or a still empty one
-            from nengo_spa.vocabulary import VocabularyMap
-            kw["vocabs"] = [spa.Vocabulary(16)] if STYLE[0] == 0 else VocabularyMap()
-        if t[2] is not None:
-            kw["seed"] = t[2] + seed_shift if STYLE[0] == 0 else np.int64(t[2] + seed_shift)
-        with (spa.Network if STYLE[0] == 0 else _SUB[0])(**kw):
-            for x in t[3]:
-                build(x, out, seed_shift)
+        with make_container(t, seed_shift):
+            build_children(t[3], out, seed_shift)
 
 
 def shapes(n, depth):
@@ -129,17 +150,20 @@ def run(rep, tier, rng):
         t2 = trees[(i * 7 + 3) % len(trees)]
         o1, o2 = [], []
         STYLE[0] = i % 2
+        DEFER[0] = (i // 2) % 2
         try:
             build(t1, o1)
             build(t2, o2)
         except Exception as e:  # noqa
             rep.violation(f"building the nesting tree raised {type(e).__name__}: {e}", {"case": {"tree": repr(t1)}})
+            DEFER[0] = 0
             continue
+        DEFER[0] = 0
         ids = {}
         lab = lambda v: ids.setdefault(id(v), len(ids))  # noqa
         l1, l2 = [lab(v) for v in o1], [lab(v) for v in o2]
         exprs.append(f"check_models {coq_tree(t1)} {coq_tree(t2)} {c.lst([str(x) for x in l1])} {c.lst([str(x) for x in l2])}")
-        cases.append((t1, t2, l1, l2, i % 2))
+        cases.append((t1, t2, l1, l2, (i % 2, (i // 2) % 2)))
         rep.case((repr(t1), repr(t2)), nontrivial=count_modules(t1) > 1,
                  sample={"tree": repr(t1), "vocabulary_labels": l1} if 3 <= count_modules(t1) <= 4 and len(repr(t1)) < 120 else None)
         rep.count("tree_pair")
@@ -148,7 +172,8 @@ def run(rep, tier, rng):
     for ok, (t1, t2, l1, l2, sty) in zip(verdicts, cases):
         if not ok:
             rep.violation(f"modules of {t1!r} (then {t2!r}) are partitioned into vocabularies {l1} / {l2}, not one per dimensionality per model",
-                          {"case": {"tree1": repr(t1), "tree2": repr(t2), "containers": "user-defined subclass of spa.Network, NumPy integer seeds" if sty else "spa.Network, int seeds"},
+                          {"case": {"tree1": repr(t1), "tree2": repr(t2), "containers": "user-defined subclass of spa.Network, NumPy integer seeds" if sty[0] else "spa.Network, int seeds",
+                                    "construction_order": "containers created first and entered again later (net = spa.Network(); ...; with net: ...)" if sty[1] else "nested with-blocks"},
                            "observed": {"labels1": l1, "labels2": l2},
                            "python": "# see harness/props/c18.py build(): M = spa.State(d), P = nengo.Network, S = spa.Network(explicit vocabs, seed)\n"
                                      "assert False, 'vocabulary identity partition differs from one-vocabulary-per-dimensionality-per-model'\n",
